@@ -2546,7 +2546,7 @@ impl<'a> Gen<'a> {
         let sv = self.fresh();
         self.emit(&format!("singleton {sv} {v}"));
         self.def(&sv, None);
-        let mut side = |g: &mut Self| -> String {
+        let side = |g: &mut Self| -> String {
             let x = g.fresh();
             match g.rng.below(4) {
                 0 => g.emit(&format!("zconst {x} base")),
